@@ -119,6 +119,12 @@ func uniqOK(w *World, s *Stmt) bool {
 }
 
 func c03Domain(td *TableDef, c ColDef) []any {
+	if c.Name == "k2" {
+		return []any{int32(5), int32(6), int32(7), int32(8)}
+	}
+	if c.Name == "w" {
+		return []any{int32(50), int32(51), int32(60), int32(70)}
+	}
 	if c.Name == "k" {
 		return []any{int32(1), int32(2), int32(3), int32(10), int32(11), int32(30), int32(31)}
 	}
@@ -128,6 +134,16 @@ func c03Domain(td *TableDef, c ColDef) []any {
 func c03Cfg(p c03Params) *WorldCfg {
 	td := c03Def(p.Idx)
 	cfg := &WorldCfg{Prop: "C03", Driver: "c03", MemKB: p.MemKB, Defs: map[string]TableDef{"t": td}, Stmts: c03Stmts(p), SeedCreate: []string{"t"}}
+	if p.Seed == "two-tables" {
+		// a victim that writes two tables (the second one, u, is an SQL table with skip-list indexes)
+		cfg.Defs["u"] = TableDef{Name: "u", Cols: []ColDef{{"k2", TInt}, {"w", TInt}}}
+		cfg.SeedCreate = []string{"t", "u"}
+		cfg.Stmts = append(cfg.Stmts,
+			&Stmt{Kind: "insert", Table: "u", Cols: []string{"k2", "w"}, Rows: [][]any{{int32(7), int32(70)}}},
+			&Stmt{Kind: "update", Table: "u", Set: []SetItem{{"w", int32(51)}}, Where: Leaf{"k2", "=", int32(5)}},
+			&Stmt{Kind: "update", Table: "u", Set: []SetItem{{"k2", int32(8)}}, Where: Leaf{"k2", "=", int32(5)}},
+			&Stmt{Kind: "delete", Table: "u", Where: Leaf{"k2", "=", int32(6)}})
+	}
 	ins := func(k int, v string) *Stmt {
 		return &Stmt{Kind: "insert", Table: "t", Cols: []string{"k", "v"}, Rows: [][]any{{int32(k), v}}}
 	}
@@ -138,10 +154,13 @@ func c03Cfg(p c03Params) *WorldCfg {
 	} else {
 		cfg.SeedStmts = []*Stmt{ins(1, "a1"), ins(2, "a2"), ins(3, "a3")}
 	}
+	if p.Seed == "two-tables" {
+		cfg.SeedStmts = append(cfg.SeedStmts, &Stmt{Kind: "insert", Table: "u", Cols: []string{"k2", "w"}, Rows: [][]any{{int32(5), int32(50)}, {int32(6), int32(60)}}})
+	}
 	domain := c03Domain
 	if p.Idx != "sql" {
 		domain = func(td *TableDef, c ColDef) []any {
-			if c.Name == "k" {
+			if c.Name == "k" || td.Name == "u" {
 				return c03Domain(td, c)
 			}
 			return nil
@@ -277,7 +296,7 @@ func init() {
 			if tier == "thorough" {
 				return 25 * time.Minute
 			}
-			return 150 * time.Second
+			return 300 * time.Second
 		},
 		Assume: []string{
 			"explicit transactions through the call sequence of ExecuteSQLRetValues; background threads off (H2)",
@@ -291,7 +310,11 @@ func init() {
 				depth = 3
 			}
 			for _, kind := range []string{"sql", "uniq", "btree", "hash"} {
-				for _, seed := range []string{"small", "page-full"} {
+				seeds := []string{"small", "page-full"}
+				if kind == "sql" || kind == "btree" {
+					seeds = append(seeds, "two-tables")
+				}
+				for _, seed := range seeds {
 					p := c03Params{Idx: kind, Seed: seed, MemKB: 128, Depth: depth}
 					core.BFS(c, core.SeqConfig{Name: fmt.Sprintf("c03/%s/%s", kind, seed), Params: p,
 						Fresh: func() core.Instance { return NewWorld(c03Cfg(p)) }, MaxDepth: depth + 6, SplitDepth: 2})
